@@ -71,6 +71,13 @@ impl Report {
         what: impl Into<String>,
         replay: impl FnOnce() -> Value,
     ) {
+        // a disagreement on a (pattern, input) on which the regex library
+        // contradicts itself is that library's defect, recorded once under
+        // C01 (known findings); here it gives no verdict
+        if engine_probe_says_inconsistent() {
+            self.count("skipped_regex_engine_disagrees_with_itself");
+            return;
+        }
         let c =
             self.violation_counts.entry(signature.to_string()).or_insert(0);
         *c += 1;
@@ -214,4 +221,40 @@ pub fn esc_short(bytes: &[u8], max: usize) -> String {
     } else {
         format!("{}...(+{} bytes)", esc(&bytes[..max]), bytes.len() - max)
     }
+}
+
+thread_local! {
+    static ENGINE_PROBE: std::cell::RefCell<Option<(Vec<String>, crate::oracle::PatFlags, Vec<Vec<u8>>, Option<bool>)>> =
+        std::cell::RefCell::new(None);
+}
+
+/// Names the case being judged, for `Report::violation`: the patterns, their
+/// flags and the inputs searched. Evaluated only if a violation is about to be
+/// recorded: is the optimised regex engine at odds with the NFA simulation of
+/// the same library on one of these inputs (`Oracle::engine_disagrees`)?
+pub fn set_engine_probe(patterns: &[String], flags: &crate::oracle::PatFlags, inputs: &[&[u8]]) {
+    ENGINE_PROBE.with(|p| {
+        *p.borrow_mut() =
+            Some((patterns.to_vec(), flags.clone(), inputs.iter().map(|i| i.to_vec()).collect(), None))
+    });
+}
+
+pub fn clear_engine_probe() {
+    ENGINE_PROBE.with(|p| *p.borrow_mut() = None);
+}
+
+fn engine_probe_says_inconsistent() -> bool {
+    ENGINE_PROBE.with(|p| {
+        let mut p = p.borrow_mut();
+        let Some((patterns, flags, inputs, memo)) = p.as_mut() else { return false };
+        if let Some(v) = memo {
+            return *v;
+        }
+        let v = match crate::oracle::Oracle::build(patterns, flags) {
+            Ok(orc) => inputs.iter().any(|i| orc.engine_disagrees(i)),
+            Err(_) => false,
+        };
+        *memo = Some(v);
+        v
+    })
 }
